@@ -32,6 +32,10 @@ type DiamVec struct {
 	Present string `json:"present"` // all | none | only | except
 	K       int    `json:"k"`
 	Strs    string `json:"strs"`
+	// Hm / H: numeric leaves of different classes in one message: "hole" = the H-th numeric leaf is zero (absent) while the
+	// others are of class Cls; "solo" = only the H-th numeric leaf is of class Cls, the others are zero
+	Hm string `json:"hm"`
+	H  int    `json:"h"`
 }
 
 var msgTypes = map[string]reflect.Type{
@@ -135,6 +139,7 @@ func dictAVPs(text, which string) []map[string]any {
 type filler struct {
 	v      DiamVec
 	leaf   int
+	num    int // numeric leaves met so far
 	ptr    int
 	nleaf  int
 	sent   map[string]any
@@ -203,7 +208,12 @@ func (f *filler) fill(v reflect.Value, path string) {
 				maxv = new(big.Int).Lsh(one, uint(bits-1))
 			}
 			maxv.Sub(maxv, one)
-			switch f.v.Cls {
+			cls := f.v.Cls
+			if (f.v.Hm == "hole" && f.num == f.v.H) || (f.v.Hm == "solo" && f.num != f.v.H) {
+				cls = "zero"
+			}
+			f.num++
+			switch cls {
 			case "zero":
 			case "one":
 				n.SetInt64(i64 + 1)
@@ -230,7 +240,7 @@ func (f *filler) fill(v reflect.Value, path string) {
 			if kind == "Enumerated" && ft.Type != reflect.TypeOf(datatype.Enumerated(0)) {
 				// named enumerations keep small members
 				n.SetInt64(i64 % 4)
-				if f.v.Cls == "zero" {
+				if cls == "zero" {
 					n.SetInt64(0)
 				}
 			}
